@@ -267,6 +267,15 @@ def normBundle (b : Bundle) : Option Bundle :=
 /-- Decoded bundle in the form in which it is re-encoded / CRC-checked. -/
 def decodeBundle (b : Bytes) : Option Bundle := (decodeBundleRaw b).bind normBundle
 
+/-! ## DTN time (RFC 9171 §4.2.6): milliseconds since 2000-01-01T00:00:00Z
+
+`DtnTimeField.datetime_to_dtntime`: a Python `datetime` is an exact count of microseconds since the
+epoch; the field value is that count divided by 1000 with integer division (`timedelta / timedelta`
+then `int`), `dtntime_to_datetime` multiplies back. No floating point is involved. -/
+
+def dtnTimeOfMicros (us : Nat) : Nat := us / 1000
+def microsOfDtnTime (t : Nat) : Nat := t * 1000
+
 /-! ## Well-formedness (explicit, decidable) -/
 
 def u64 (n : Nat) : Bool := n < 18446744073709551616
